@@ -175,7 +175,9 @@ def configs(tier):
     # wider: multi-chunk Mode / SetClr (conforming driver, capped)
     wide = [dict(pins=4, aw=2, dw=8, stages=0, driver="conf", wvals=(0, 0xFF, 0x1B, 0xE4, 0x66), pinv=(0, 0xF, 0x5)),
             dict(pins=5, aw=3, dw=8, stages=1, driver="conf", wvals=(0, 0xFF, 0x1B, 0x66), pinv=(0, 0x1F, 0x11)),
-            dict(pins=9, aw=4, dw=8, stages=0, driver="conf", wvals=(0, 0xFF, 0x9C), pinv=(0, 0x1FF, 0x101)),
+            # more pins than data bits, WITH synchroniser stages (Input spans two chunks)
+            dict(pins=9, aw=4, dw=8, stages=1, driver="conf", wvals=(0, 0xFF, 0x9C), pinv=(0, 0x1FF, 0x101)),
+            dict(pins=10, aw=4, dw=8, stages=2, driver="conf", wvals=(0, 0xFF), pinv=(0, 0x3FF, 0x200)),
             dict(pins=9, aw=3, dw=16, stages=2, driver="conf", wvals=(0, 0xFFFF, 0x6C93), pinv=(0, 0x1FF))]
     for c in wide:
         c["capped_ok"] = True
